@@ -88,6 +88,7 @@ def run(ctx):
     recs = sc.run_games(ctx, games, limit=10, tag="c05")
     sc.correspondence(ctx, recs, "cmp_final", "c05")
     sc.padding_check(ctx, recs, ("final",), 40 if ctx.quick else 400, "c05")
+    sc.loglevel_check(ctx, recs, ("final",), 25 if ctx.quick else 250, "c05")
     check(ctx, recs)
 
 
